@@ -519,7 +519,7 @@ func c07CrossProcess(c *Ctx, tree *SrcTree, scriptPath map[string]string, disk m
 	if err != nil {
 		return err
 	}
-	fam := c.Rep.Family("cross-process", "the nfpm binary built from the tree packages one YAML config (mtime 2023-11-14T22:13:20Z, rpm.buildhost fixed, files incl. setuid + explicit per-entry mtime, config, glob, dir, symlink, tree, name with space, four scripts) once per packager and environment: TZ=UTC | TZ=Asia/Tokyo | TZ=America/New_York GOMAXPROCS=1 | GOMAXPROCS=8 | relative sources with the working directory at the tree root; all outputs of one packager must be byte-identical and every timestamp in them sourced; then the config without mtime under SOURCE_DATE_EPOCH=1600000000 in two timezones: identical, package-level timestamps equal the epoch, no timestamp unsourced; one evaluation per (config, packager, environment); non-trivial = every case")
+	fam := c.Rep.Family("cross-process", "the nfpm binary built from the tree packages one YAML config (mtime 2023-11-14T22:13:20Z, rpm.buildhost fixed, files incl. setuid + explicit per-entry mtime, config, glob, dir, symlink, tree, name with space, four scripts) once per packager and environment: TZ=UTC | TZ=Asia/Tokyo | TZ=America/New_York GOMAXPROCS=1 | GOMAXPROCS=8 | relative sources with the working directory at the tree root; all outputs of one packager must be byte-identical and every timestamp in them sourced; then the config without mtime under SOURCE_DATE_EPOCH=1600000000 and SOURCE_DATE_EPOCH=0 in two timezones each: identical, package-level timestamps equal the epoch, no timestamp unsourced; one evaluation per (config, packager, environment); non-trivial = every case")
 	work := filepath.Join(c.Tmp, "xproc")
 	if err := os.MkdirAll(work, 0o755); err != nil {
 		return err
@@ -601,64 +601,67 @@ func c07CrossProcess(c *Ctx, tree *SrcTree, scriptPath map[string]string, disk m
 			}
 		}
 	}
-	// SOURCE_DATE_EPOCH
-	const sde = int64(1600000000)
-	sdeVariants := []variant{
-		{"sde-tz-utc", cfgSDE, work, []string{"SOURCE_DATE_EPOCH=1600000000", "TZ=UTC"}},
-		{"sde-tz-tokyo", cfgSDE, work, []string{"SOURCE_DATE_EPOCH=1600000000", "TZ=Asia/Tokyo", "GOMAXPROCS=2"}},
-	}
-	for _, f := range Formats {
-		var first []byte
-		for i, v := range sdeVariants {
-			data, err := run(f, v, "sde")
-			in := map[string]any{"format": f, "config": filepath.Base(v.cfg), "env": v.env, "config_text": c07Config(tree, scriptPath, false, false)}
-			fam.Eval("sde|"+f+"|"+v.name, true)
-			fam.Count(v.name)
-			if err != nil {
-				c.Rep.Find(report.Finding{Property: "C07", Family: "cross-process", Shape: f + ":cross-process-differs:" + v.name, What: "nfpm package failed: " + err.Error(), Input: in})
-				continue
-			}
-			if i > 0 && first != nil {
-				if !bytes.Equal(first, data) {
-					c.Rep.Find(report.Finding{Property: "C07", Family: "cross-process", Shape: f + ":cross-process-differs:" + v.name,
-						What: "with SOURCE_DATE_EPOCH fixed the package differs between two runs: " + diffWhat(first, data), Input: in})
+	// SOURCE_DATE_EPOCH: an ordinary epoch and the boundary value 0 (1970-01-01 is a fixed mtime like any other)
+	for _, sde := range []int64{1600000000, 0} {
+		sdeEnv := fmt.Sprintf("SOURCE_DATE_EPOCH=%d", sde)
+		sdeTag := fmt.Sprintf("sde%d", sde)
+		sdeVariants := []variant{
+			{sdeTag + "-tz-utc", cfgSDE, work, []string{sdeEnv, "TZ=UTC"}},
+			{sdeTag + "-tz-tokyo", cfgSDE, work, []string{sdeEnv, "TZ=Asia/Tokyo", "GOMAXPROCS=2"}},
+		}
+		for _, f := range Formats {
+			var first []byte
+			for i, v := range sdeVariants {
+				data, err := run(f, v, sdeTag)
+				in := map[string]any{"format": f, "config": filepath.Base(v.cfg), "env": v.env, "config_text": c07Config(tree, scriptPath, false, false)}
+				fam.Eval(sdeTag+"|"+f+"|"+v.name, true)
+				fam.Count(v.name)
+				if err != nil {
+					c.Rep.Find(report.Finding{Property: "C07", Family: "cross-process", Shape: f + ":cross-process-differs:" + v.name, What: "nfpm package failed: " + err.Error(), Input: in})
+					continue
 				}
-				continue
-			}
-			first = data
-			checkStamps(c, fam, "cross-process", f, data, allowedFor(disk, sde, explicit), in)
-			dec, derr := DecodePkg(f, data)
-			if derr != nil {
-				c.Rep.Note("cross-process: decode %s: %v", f, derr)
-				continue
-			}
-			// package-level timestamps: those nfpm itself stamps (not taken from an entry)
-			var lvl []stamp
-			for _, s := range collectStamps(dec) {
-				switch {
-				case s.Class == "ar-member", s.Class == "rpm-buildtime", s.Class == "arch-builddate":
-					lvl = append(lvl, s)
-				case s.Class == "tar-member" && (strings.HasPrefix(s.Where, "control.tar.gz:") || strings.HasPrefix(s.Where, "outer:")):
-					lvl = append(lvl, s)
-				case s.Class == "tar-member" && f == "archlinux" && (strings.HasSuffix(s.Where, ":.PKGINFO") || strings.HasSuffix(s.Where, ":.MTREE") || strings.HasSuffix(s.Where, ":.INSTALL")):
-					lvl = append(lvl, s)
-				case s.Class == "mtree-time" && strings.HasSuffix(s.Where, ".PKGINFO"):
-					lvl = append(lvl, s)
-				case (s.Class == "tar-member" || s.Class == "mtree-time") && (strings.HasSuffix(s.Where, ":usr/") || strings.HasSuffix(s.Where, ":./usr/") || strings.HasSuffix(s.Where, ":usr") || strings.HasSuffix(s.Where, ":./usr")):
-					lvl = append(lvl, s) // implicit parent directory: stamped with the package mtime
+				if i > 0 && first != nil {
+					if !bytes.Equal(first, data) {
+						c.Rep.Find(report.Finding{Property: "C07", Family: "cross-process", Shape: f + ":cross-process-differs:" + v.name,
+							What: "with SOURCE_DATE_EPOCH fixed the package differs between two runs: " + diffWhat(first, data), Input: in})
+					}
+					continue
 				}
-			}
-			fam.Count(fmt.Sprintf("%s:package-level-stamps=%d", f, len(lvl)))
-			var bad []string
-			for _, s := range lvl {
-				if s.Val != sde {
-					bad = append(bad, fmt.Sprintf("%s=%d", s.Where, s.Val))
+				first = data
+				checkStamps(c, fam, "cross-process", f, data, allowedFor(disk, sde, explicit), in)
+				dec, derr := DecodePkg(f, data)
+				if derr != nil {
+					c.Rep.Note("cross-process: decode %s: %v", f, derr)
+					continue
 				}
-			}
-			sort.Strings(bad)
-			if len(bad) > 0 || (len(lvl) == 0 && f != "rpm") {
-				c.Rep.Find(report.Finding{Property: "C07", Family: "cross-process", Shape: f + ":source-date-epoch-ignored",
-					What: fmt.Sprintf("SOURCE_DATE_EPOCH=%d and no mtime configured, yet package-level timestamps differ from it (%d checked): %s", sde, len(lvl), strings.Join(bad, " ")), Input: in})
+				// package-level timestamps: those nfpm itself stamps (not taken from an entry)
+				var lvl []stamp
+				for _, s := range collectStamps(dec) {
+					switch {
+					case s.Class == "ar-member", s.Class == "rpm-buildtime", s.Class == "arch-builddate":
+						lvl = append(lvl, s)
+					case s.Class == "tar-member" && (strings.HasPrefix(s.Where, "control.tar.gz:") || strings.HasPrefix(s.Where, "outer:")):
+						lvl = append(lvl, s)
+					case s.Class == "tar-member" && f == "archlinux" && (strings.HasSuffix(s.Where, ":.PKGINFO") || strings.HasSuffix(s.Where, ":.MTREE") || strings.HasSuffix(s.Where, ":.INSTALL")):
+						lvl = append(lvl, s)
+					case s.Class == "mtree-time" && strings.HasSuffix(s.Where, ".PKGINFO"):
+						lvl = append(lvl, s)
+					case (s.Class == "tar-member" || s.Class == "mtree-time") && (strings.HasSuffix(s.Where, ":usr/") || strings.HasSuffix(s.Where, ":./usr/") || strings.HasSuffix(s.Where, ":usr") || strings.HasSuffix(s.Where, ":./usr")):
+						lvl = append(lvl, s) // implicit parent directory: stamped with the package mtime
+					}
+				}
+				fam.Count(fmt.Sprintf("%s:package-level-stamps=%d", f, len(lvl)))
+				var bad []string
+				for _, s := range lvl {
+					if s.Val != sde {
+						bad = append(bad, fmt.Sprintf("%s=%d", s.Where, s.Val))
+					}
+				}
+				sort.Strings(bad)
+				if len(bad) > 0 || (len(lvl) == 0 && f != "rpm") {
+					c.Rep.Find(report.Finding{Property: "C07", Family: "cross-process", Shape: f + ":source-date-epoch-ignored",
+						What: fmt.Sprintf("SOURCE_DATE_EPOCH=%d and no mtime configured, yet package-level timestamps differ from it (%d checked): %s", sde, len(lvl), strings.Join(bad, " ")), Input: in})
+				}
 			}
 		}
 	}
